@@ -572,11 +572,11 @@ func r10FanOut(c *Ctx, rule string) {
 			continue
 		}
 		EachCall(fn, func(call ssa.CallInstruction) {
-			if CalleeName(call) != "(*Havoc/cmd/server.Teamserver).SendEvent" {
+			if !sendsEvent(call) {
 				return
 			}
 			args := CallArgs(call)
-			if len(args) != 2 {
+			if len(args) < 1 {
 				return
 			}
 			// fan-out = the destination id derives from the callback's key parameter
@@ -586,7 +586,7 @@ func r10FanOut(c *Ctx, rule string) {
 			n++
 			ok := false
 			how := "send is control-dependent on the ranged client's Authenticated flag"
-			for _, f := range FactsAt(call.Block()) {
+			for _, f := range FactsAtDeep(call.Block()) {
 				if f.Truth && DerivesFrom(f.Cond, IsFieldLoad(PkgServer+".Client", "Authenticated")) {
 					ok = true
 				}
